@@ -71,6 +71,9 @@ type Prov struct {
 	// AppendBaseOnly follows only the first operand of builtin append (the slice
 	// being extended), ignoring the appended material.
 	AppendBaseOnly bool
+	// ExpandComposite makes a request for a whole struct built field by field
+	// return the sources of every field instead of one "composite" leaf.
+	ExpandComposite bool
 }
 
 type provKey struct {
@@ -555,7 +558,18 @@ func (w *walker) allocStores(a *ssa.Alloc, path []string, at ssa.Instruction) {
 		}
 	}
 	if hasField {
-		w.leaf(Src{Kind: "composite", V: a})
+		if w.pv.ExpandComposite {
+			if refs := a.Referrers(); refs != nil {
+				for _, r := range *refs {
+					if fa, ok := r.(*ssa.FieldAddr); ok && fa.X == ssa.Value(a) {
+						n, _ := FieldName(fa)
+						w.addr(a, []string{n}, at)
+					}
+				}
+			}
+		} else {
+			w.leaf(Src{Kind: "composite", V: a})
+		}
 		found = true
 	}
 	if flow {
